@@ -27,8 +27,11 @@ def sh(cmd, cwd=None, timeout=1800):
     return p.returncode, p.stdout
 
 
-def ingest(pid, which):
-    src = "/tmp/seed/out-%s/%s" % (pid, which)
+def ingest(pid, which, srcroot="/tmp/seed", base=None):
+    global BASE
+    if base:
+        BASE = base
+    src = "%s/out-%s/%s" % (srcroot, pid, which)
     meta = json.load(open(os.path.join(src, "meta.json")))
     wt = "/tmp/seedchk-%s-%s" % (pid, which)
     sh("git -C /repo worktree remove --force %s" % wt)
@@ -51,7 +54,7 @@ def ingest(pid, which):
             shutil.copy(os.path.join(src, f), os.path.join(wt, target_dir, f))
             placed.append(os.path.join(target_dir, f))
         cmd = meta["demo_cmd"]
-        cmd = cmd.replace("/tmp/seed/wt-%s" % pid, wt)
+        cmd = cmd.replace("/tmp/seed/wt-%s" % pid, wt).replace("/tmp/seed2/wt-%s" % pid, wt)
         if "cd " not in cmd:
             cmd = "cd %s && %s" % (wt, cmd)
         # without the change
@@ -168,6 +171,13 @@ if __name__ == "__main__":
                     ingest(pid, w)
                 except Exception as e:
                     print("INGEST-ERROR", pid, w, repr(e)[:500])
+    elif sys.argv[1] == "ingest2":
+        # round 2: changes made on top of the hook/fix commits (base = that commit)
+        for pid in sys.argv[3:]:
+            try:
+                ingest(pid, "C", srcroot="/tmp/seed2", base=sys.argv[2])
+            except Exception as e:
+                print("INGEST-ERROR", pid, repr(e)[:500])
     elif sys.argv[1] == "run":
         tier = sys.argv[3] if len(sys.argv) > 3 else "quick"
         run(sys.argv[2], tier, sys.argv[4:])
